@@ -123,6 +123,7 @@ def correspond(ctx, model):
     # malformed stream: zero step
     _indexed_shape_part(ctx, model)
     _collapse_part(ctx, model)
+    _stacks_part(ctx)
     _part2(ctx)
     for n in range(0, 4):
         sl = slice(None, None, 0)
@@ -273,6 +274,25 @@ def _tolist(sh):
     return int(sh)
 
 
+def _stacks_part(ctx):
+    """stacks / freeze / Function.slice, join: declared shapes and dtypes, plain-vs-block output, adjoint shapes
+    (implementation-only oracle, harness/opalg_stacks.py)"""
+    import json
+
+    import opalg_gen as G
+    import opalg_stacks as S
+
+    env = G.Env()
+    for name, key, fail in S.cases(env, ctx.rng, ctx.thorough, parts=("stacks", "freeze")):
+        ctx.case({"name": name}, ("oracle",) + tuple(map(str, key)))
+        ctx.count("oracle-only:" + name.split(" ")[0].split("(")[0].split("[")[0])
+        if fail:
+            f = json.loads(json.dumps(fail, default=str))
+            ctx.disagree("opalg.oracle:" + str(fail.get("what")), {"name": name, "key": [str(k) for k in key]}, f,
+                         "declared metadata = observed; matrix = same construction on the operands' matrices", oracle=lambda c, f=f: f)
+            return
+
+
 def _part2(ctx):
     """operator metadata: declared shapes / dtypes / matrix_shape of derived operators against the
     OpAlg model (exact) and against what evaluation returns; non-conforming inputs are rejected"""
@@ -287,7 +307,7 @@ def _part2(ctx):
         dmax = ctx.n(4, 7)
         bad = 0
         # every class x {neg, T, H, conj, gram, scalar kinds} first (finite), then random trees
-        table = [c for c in T.pair_table(ctx.rng) if c[1]["t"] in ("neg", "T", "H", "conj", "gram")]
+        table = [c for c in T.pair_table(ctx.rng) if c[1]["t"] in ("neg", "T", "H", "conj", "gram") or "R->C" in c[0] or "input_dtype" in c[0]]
         cases = [(nm, e) for nm, e in table]
         for i in range(n):
             dt_of = T.dtype_regime(ctx.rng)
